@@ -9,10 +9,13 @@ import (
 	"os"
 	"path/filepath"
 	"regexp"
+	"runtime"
+	"runtime/debug"
 	"sort"
 	"strconv"
 	"strings"
 	"sync"
+	"sync/atomic"
 	"time"
 )
 
@@ -101,7 +104,40 @@ func (r *Run) loadKnown() {
 // SetDeadline sets an internal time budget; Expired() tells loops to stop (run is then not exhaustive).
 func (r *Run) SetDeadline(d time.Duration) { r.deadline = r.start.Add(d) }
 
+// memory guard: the sandbox has no memory limit and an out-of-memory kill would take the whole check (and its evidence) with
+// it; an exploration that outgrows the budget stops expanding, like one that outruns its deadline, and reports exhaustive=false
+var memOnce sync.Once
+var memExceeded int32
+
+func memWatch() {
+	limit := int64(envInt("VERIF_MEM_LIMIT_MB", 20000)) << 20
+	if os.Getenv("VERIF_WORKER") != "" {
+		limit = int64(envInt("VERIF_WORKER_MEM_LIMIT_MB", 2500)) << 20
+	}
+	go func() {
+		var ms runtime.MemStats
+		for {
+			runtime.ReadMemStats(&ms)
+			if int64(ms.HeapInuse) > limit {
+				atomic.StoreInt32(&memExceeded, 1)
+				debug.FreeOSMemory()
+			}
+			time.Sleep(2 * time.Second)
+		}
+	}()
+}
+
 func (r *Run) Expired() bool {
+	memOnce.Do(memWatch)
+	if atomic.LoadInt32(&memExceeded) != 0 {
+		r.mu.Lock()
+		r.Exhaustive = false
+		if r.cov["stopped_by_memory_budget"] == nil {
+			r.cov["stopped_by_memory_budget"] = true
+		}
+		r.mu.Unlock()
+		return true
+	}
 	if r.deadline.IsZero() {
 		return false
 	}
